@@ -234,3 +234,18 @@ CONFIG["C14"] = {
     "assumptions": COMMON_ASSUMPTIONS + ["return-type differences that are ABI-compatible on x86-64 are observed but not judged", "Bitcoin family: codes, names and type names only (roots, costs and bindings are unimplemented in this revision)"],
     "counter_floors": {"quick": {"exec.both-ok": 5000, "table.Core": 368, "table.Elements": 471, "table.Bitcoin": 428, "namesakes": 368}, "thorough": {"exec.both-ok": 60000}},
 }
+
+CONFIG["C15"] = {
+    "budget_s": {"quick": 120, "thorough": 1800},
+    "floor": {"quick": 800, "thorough": 40000},
+    "rule": ("a case is a generated Elements transaction environment (1..5 inputs, 0..5 outputs; per input independently: pegin or not, new issuance / reissuance / none with explicit, confidential or null amounts and keys, "
+             "range proofs of 0 or 65..300 bytes, script_sig 0..100 bytes, witness stack of 0..4 items with no annex / an annex of 0..80 bytes / the 1-byte annex [0x50], explicit or confidential spent asset and value; outputs with explicit or confidential "
+             "asset and value, null / explicit / confidential nonce, empty, OP_RETURN, taproot-like and random scripts, surjection and range proofs; lock time in blocks / seconds / at the boundary; sequences with and without the final value; "
+             "control block with 0..8, rarely up to 128, path elements). For every environment-reading Elements jet with no input or an index input, and every index in {0,1,n-1,n,n+1,m-1,m,m+1,2^32-1, lock time +-1} (path: {0,1,k-1,k,k+1,255}), the one-jet program is run "
+             "through BitMachine::exec: (a) an environment built a second time from the same data must give identical outputs for all jets (aggregate digests included); (b) for 56 field jets the output must equal the field of the supplied data in the jet's "
+             "documented encoding (absent value for out-of-range indices; null amounts read as explicit 0; proofs hashed only for confidential values); every current_X equals input_X(ix); check_lock_* fail exactly when the index exceeds the lock; "
+             "(c) the sig_all_hash jet equals CTxEnv::sighash_all(). Non-trivial: every environment; distinct: distinct transactions."),
+    "assumptions": COMMON_ASSUMPTIONS + ["aggregate digest jets (inputs_hash, tx_hash, tap_env_hash, ...) are not re-implemented: covered by the two-build consistency check, the sighash identity and C14/C06",
+                                         "output assets and values are never null here (no documented reading); the annex is the last witness item when it starts with 0x50, hashed without the tag byte, as the environment builder documents"],
+    "counter_floors": {"quick": {"reference-checked": 100000, "sighash-compared": 800}, "thorough": {"reference-checked": 5000000}},
+}
